@@ -266,3 +266,24 @@ def r08_6(ctx):
     from .c02 import r02_5
     r01_1(ctx)
     r02_5(ctx)
+
+
+@rule("R08.7", min_instances=3, desc="refined sampling rejects what it cannot interpolate: an expression of states / quadrature states / algebraic variables needs the polynomial coefficients of that family, else raise (never NaN)")
+def r08_7(ctx):
+    P = ctx.prog
+    f = P.own_method("Stage", "_grid_intg_fine")
+    sc = ctx.scope(f)
+    expr = f.params[2]
+    fams = {"stage.x": "poly_coeff", "stage.xq": "poly_coeff_q", "stage.z": "poly_coeff_z"}
+    seen = {}
+    for st in f.node.body:
+        if isinstance(st, ast.If) and any(isinstance(x, ast.Raise) for x in ast.walk(st)):
+            t = ast.unparse(st.test).replace(" ", "")
+            for sym, coeff in fams.items():
+                if "depends_on(%s,%s)" % (expr, sym) in t and ("stage._method.%sisNone" % coeff in t or "notstage._method.%s" % coeff in t):
+                    seen[sym] = st
+    first_use = min([sc.order[c] for c in walk_no_nested(f.node) if is_call_to(c, "eval_at_integrator", "stage._method")] or [10 ** 9])
+    for sym, coeff in fams.items():
+        ok = sym in seen and sc.order[seen[sym]] < first_use
+        ctx.check(ok, "_grid_intg_fine: an expression of %s without %s is rejected" % (sym, coeff), detail="refined samples are NaN (the interpolation polynomial of this family does not exist for the chosen integrator) instead of an error",
+                  expected="if depends_on(expr, %s) and stage._method.%s is None (or empty): raise" % (sym, coeff), found="guarded families: %s" % sorted(seen), fi=f, sample={"family": sym, "guarded": sym in seen})
